@@ -220,7 +220,15 @@ func (ex *Exec) verifyFunc(fn *ssa.Function, caseParam string, caseLit Expr) *Fu
 	for _, cl := range c.Clauses {
 		if cl.Kind == "assert" && tagActive(cl.Tags, ex.prop) {
 			if !cl.Reached && !cl.Schema {
-				ex.cerr("%s:%d: assert @%s never reached in %s", cl.File, cl.Line, cl.Names[0], shortKey(key))
+				// the call that carried this obligation is gone from the function: the obligation cannot be
+				// discharged any more (reported as a failed obligation, without a failing input)
+				label := cl.Label
+				if label == "" {
+					label = fmt.Sprint(cl.Ord)
+				}
+				ob := ex.addObl(entry, "assert", ex.oblName("assert", fmt.Sprintf("#%s@%s#missing", label, lastSeg(cl.Names[0]))), TFalse, fn.Pos(),
+					cl.Text+"   [no call of "+cl.Names[0]+" is reached in this function any more]")
+				ob.Hyps = nil
 			}
 			cl.Reached = false
 		}
